@@ -310,7 +310,7 @@ def check(ctx: Ctx) -> None:
             ctx.ok("NK2", inst, kshow(s.kind))
         else:
             ctx.undetermined("NK2", inst, kshow(s.kind))
-    ctx.floor("emitter numeric token fields", n2, 9)
+    ctx.floor("emitter numeric token fields", n2, 6)          # TRACK, PITCH, VALUE, VELOCITY, REST, TIME_SIGNATURE (a part formatted once or twice)
     # NK2 without the integer-tick hypothesis: tokenise must emit vocabulary members for *every* input it accepts, and it accepts
     # float-valued ticks (`24.0 in note_values` holds; `Sequence.scale(0.5)` produces them) -- a field that is an integer only
     # because the ticks happen to be integers is rendered `val_24.0`
@@ -329,7 +329,7 @@ def check(ctx: Ctx) -> None:
                                   f"the vocabulary -- encode raises KeyError on tokenise output", file=s.file, node=s.node)
         else:
             ctx.ok("NK2", inst, kshow(s.kind))
-    ctx.floor("emitter numeric token fields (float-tick run)", nf, 9)
+    ctx.floor("emitter numeric token fields (float-tick run)", nf, 6)
     for attr, dom in (("step_sizes", "REST"), ("note_values", "VALUE"), ("velocity_bins", "VELOCITY")):
         k = eng.attr_lookup(TOK, attr)
         ek = elem(k) if k else None
@@ -434,7 +434,7 @@ def thorough(ctx: Ctx) -> None:
             if src(e) in doms:
                 return doms[src(e)][0]
             return f"UNKNOWN({short(e, 30)})"
-        si = StringInterp(p, fe, fl, fd, out_lists={T.result_list_name(fe.node)}, extra={"insert_bar_token": False, "flag_running_time_signature": True})
+        si = StringInterp(p, fe, fl, fd, out_lists=T.output_lists(fe.node), extra={"insert_bar_token": False, "flag_running_time_signature": True})
         si.run_function(fe.node, {})
         for t in si.emitted:
             n += 1
